@@ -58,6 +58,10 @@ def run(ctx):
     for i in range(4 if quick else 20):
         seed += 1
         cases.append({"kind": "idledelete", "seed": seed, "fails": []})
+    # graceful exit (SIGTERM) with creations only just under way: the next daemon has everything the idle one had
+    for i in range(10 if quick else 80):
+        seed += 1
+        cases.append({"kind": "idleterm", "seed": seed, "fails": []})
     for i in range(8 if quick else 150):
         seed += 1
         cases.append({"kind": "random", "seed": seed, "fails": []})
@@ -115,6 +119,7 @@ def run(ctx):
     ctx.notes["cases"] = len(obs)
     ctx.notes["killed_at_named_point"] = died
     ctx.notes["kill_restart_cycles"] = sum(o.get("restarts", 0) for o in obs)
+    ctx.notes["failed_starts_in_between"] = sum(o.get("failed_starts", 0) for o in obs)
     ctx.notes["file_reads_by_concurrent_reader"] = sum(o.get("file_reads", 0) for o in obs)
     for o in obs[:3]:
         ctx.sample({"meta_case": {k: o[k] for k in ("kind", "point", "nth", "seed", "died_at_point", "ops", "loaded") if k in o}})
